@@ -57,6 +57,8 @@ func (e event) String() string {
 		return fmt.Sprintf("rm(%s)@%s", e.Tgt, e.At)
 	case "join":
 		return "join@" + e.At
+	case "updpin":
+		return "pin-update(c3->c4)+unpin(c3)@" + e.At
 	}
 	return e.Kind
 }
@@ -87,7 +89,7 @@ func (h history) shape() string {
 }
 
 func alphabet(n int) []event {
-	a := []event{{Kind: "pin", At: "L", C: 0}, {Kind: "join", At: "L"}, {Kind: "rm", At: "L", Tgt: "absent"}, {Kind: "rm", At: "L", Tgt: "L"}, {Kind: "restart"}}
+	a := []event{{Kind: "pin", At: "L", C: 0}, {Kind: "updpin", At: "L"}, {Kind: "join", At: "L"}, {Kind: "rm", At: "L", Tgt: "absent"}, {Kind: "rm", At: "L", Tgt: "L"}, {Kind: "restart"}}
 	if n > 1 {
 		a = append(a,
 			event{Kind: "pin", At: "F", C: 1},
@@ -144,10 +146,11 @@ func enumerate() []history {
 		if !th {
 			// quick: pins first, then every membership event (the pinset must survive)
 			for _, e := range al {
-				if e.Kind == "pin" || e.Kind == "unpin" {
+				if e.Kind == "pin" || e.Kind == "unpin" || e.Kind == "updpin" {
 					continue
 				}
 				out = append(out, history{n, []event{{Kind: "pin", At: "L", C: 0}, {Kind: "pin", At: "L", C: 2}, e}})
+				out = append(out, history{n, []event{{Kind: "pin", At: "L", C: 0}, {Kind: "updpin", At: "L"}, e}})
 			}
 		}
 	}
@@ -382,6 +385,30 @@ func (w *world) apply(e event) bool {
 			if err == nil {
 				delete(w.refPins, c.String())
 			}
+		}
+	case "updpin":
+		// a pin created through pin update whose source is then unpinned (the
+		// documented workflow): its stored options keep the update marker
+		at := w.pick(e.At)
+		if at == nil {
+			return false
+		}
+		src, dst := clus.Cid("c3"), clus.Cid("c4")
+		if _, err := at.p.C.Pin(ctx, src, api.PinOptions{ReplicationFactorMin: 1, ReplicationFactorMax: 1, Name: "src"}); err != nil {
+			w.viol = append(w.viol, finding{"info:pin-error", err.Error()})
+			return true
+		}
+		w.settle(time.Second)
+		pin, err := at.p.C.PinUpdate(ctx, src, dst, api.PinOptions{})
+		if err != nil {
+			w.viol = append(w.viol, finding{"info:pinupdate-error", err.Error()})
+			return true
+		}
+		w.refPins[dst.String()] = noAlloc(pin)
+		w.settle(time.Second)
+		if _, err := at.p.C.Unpin(ctx, src); err != nil {
+			w.refPins[src.String()] = "?"
+			w.viol = append(w.viol, finding{"info:unpin-error", err.Error()})
 		}
 	case "join":
 		via := w.pick(e.At)
